@@ -46,6 +46,17 @@ def cases(rng, tier):
         out.append({'fn': 'Linear', 'shape': [rng.randint(1, 6), rng.randint(1, 6)], 'bias': rng.chance(.7), 'seed': seed, 'dt': 'f32', 'rg': True, 'args': []})
         out.append({'fn': 'Conv1d', 'shape': [rng.randint(1, 4), rng.randint(1, 4), rng.randint(1, 4)], 'bias': rng.chance(.7), 'seed': seed, 'dt': 'f32', 'rg': True, 'args': []})
         out.append({'fn': 'Conv2d', 'shape': [rng.randint(1, 4), rng.randint(1, 4), rng.randint(1, 3), rng.randint(1, 3)], 'bias': rng.chance(.7), 'seed': seed, 'dt': 'f32', 'rg': True, 'args': []})
+    # arguments that are exactly zero (falsy, but not "missing"): an upper / lower bound of 0, mean 0, gain 0, slope 0
+    for _ in range(2 if tier == 'quick' else 20):
+        sh = [rng.randint(2, 4), rng.randint(2, 4)]
+        base = {'shape': sh, 'dt': rng.pick(['f32', 'f64']), 'rg': rng.chance(.5), 'seed': rng.randrange(2 ** 31)}
+        out.append(dict(base, fn='uniform_', args=[rng.dyadic(-2, -1), 0.0]))
+        out.append(dict(base, fn='uniform_', args=[0.0, rng.dyadic(1, 2)]))
+        out.append(dict(base, fn='uniform_', args=[0.0, 0.0]))
+        out.append(dict(base, fn='normal_', args=[0.0, rng.randint(1, 16) / 8]))
+        out.append(dict(base, fn='constant_', args=[0.0]))
+        out.append(dict(base, fn='xavier_uniform_', args=[0.0]))
+        out.append(dict(base, fn='kaiming_uniform_', args=[0, 'fan_out', 'leaky_relu']))
     # sizes given as narrow NumPy integers (read from a config array / an image header), with fans beyond the range of that type
     for _ in range(3 if tier == 'quick' else 40):
         seed = rng.randrange(2 ** 31)
